@@ -483,6 +483,13 @@ def make_observer(raises, flavour=0):
             if raises:
                 raise exc[2]()
 
+    if raises and flavour % len(FLAVOURS) != 0:
+        # a raising observer that cannot be printed either (a forwarder whose repr reads an unset link): the fan-out
+        # must not touch the observer object itself while handling what it raised
+        def _no_text(self, *a):
+            raise RuntimeError("observer has no text form")
+
+        Rec.__repr__ = Rec.__str__ = Rec.__format__ = _no_text
     return Rec()
 
 
